@@ -1,6 +1,7 @@
 package main
 
 import (
+	"context"
 	"encoding/json"
 	"fmt"
 	"regexp"
@@ -374,6 +375,85 @@ func init() {
 		p.States = p.Executions
 		p.addObs("accept")
 		p.addObs("reject")
+	}, replay: c18Replay})
+}
+
+// (4) registry growth: N distinct valid names registered one after the other; at every checkpoint (around
+// every power of two up to 1024, so that any growth step of a backing structure is crossed) every earlier
+// name is registered again and must yield the tag it yielded the first time; GetAllTags is exactly the set;
+// after a Refresh every tag handed out FIRST (before the growth) is served by the configured logger.
+func init() {
+	parts = append(parts, partDef{prop: "C18", name: "c18/registry-growth", tiers: "qt", run: func(r *runCtx, p *Part) {
+		if r.shard != 0 {
+			return
+		}
+		maxN := 1100
+		p.Bounds = fmt.Sprintf("%d distinct valid names registered in sequence; all earlier names re-registered (pointer identity) at 40 checkpoints around every power of two; GetAllTags = the set; after Refresh every first-handed-out tag is served", maxN)
+		log.VerifReset()
+		confReset2()
+		base := map[string]bool{}
+		for _, t := range log.GetAllTags() {
+			base[t] = true
+		}
+		check := map[int]bool{1: true, 2: true, 3: true, 5: true, maxN: true}
+		for k := 4; k <= 1024; k *= 2 {
+			check[k-1], check[k], check[k+1] = true, true, true
+		}
+		var names []string
+		first := map[string]*log.Tag{}
+		for i := 0; i < maxN; i++ {
+			name := fmt.Sprintf("g%03d_x", i)
+			if i%3 == 1 {
+				name = fmt.Sprintf("_g_%d", i)
+			}
+			t, pn := tryRegister(name)
+			p.Executions++
+			if pn != nil || t == nil {
+				p.fail(Violation{Clause: "valid-rejected", Key: name, Detail: fmt.Sprintf("RegisterTag(%q) after %d registrations: panic=%v", name, i, pn)}, name)
+				continue
+			}
+			names = append(names, name)
+			first[name] = t
+			if !check[len(names)] {
+				continue
+			}
+			for _, n := range names {
+				p.Transitions++
+				if t2, pn2 := tryRegister(n); pn2 != nil || t2 != first[n] {
+					p.fail(Violation{Clause: "not-idempotent-after-growth", Key: fmt.Sprintf("%d names", len(names)),
+						Detail: fmt.Sprintf("with %d names registered, RegisterTag(%q) yields %p, the first registration yielded %p (panic=%v)", len(names), n, t2, first[n], pn2)}, n)
+					break
+				}
+			}
+			got := log.GetAllTags()
+			if len(got) != len(base)+len(names) {
+				p.fail(Violation{Clause: "registry-contents", Key: fmt.Sprintf("%d names", len(names)), Detail: fmt.Sprintf("GetAllTags() has %d entries, %d names are registered", len(got), len(base)+len(names))}, "growth")
+			}
+		}
+		// the tags handed out first are the ones a configuration serves
+		if err, pn := safeRefresh(map[string]string{"appender.g.type": "Rec", "logger.root.type": "Logger", "logger.root.appenderRef.ref": "g", "logger.root.level": "INFO"}); err != nil || pn != nil {
+			p.fail(Violation{Clause: "valid-config-rejected", Key: "growth", Detail: fmt.Sprintf("err=%v panic=%v", err, pn)}, "growth")
+		} else {
+			for i, n := range names {
+				if i%7 == 0 || i < 40 {
+					safeCall(func() { log.Info(context.Background(), first[n], log.Msg("via-"+n)) })
+				}
+			}
+			log.Destroy()
+			seen := map[string]int{}
+			for _, it := range recStore["g"] {
+				seen[it.ID]++
+			}
+			for i, n := range names {
+				if (i%7 == 0 || i < 40) && seen["via-"+n] != 1 {
+					p.fail(Violation{Clause: "early-tag-not-served", Key: n, Detail: fmt.Sprintf("event logged through the tag first handed out for %q (registration #%d of %d) reached the configured root logger %d times", n, i, len(names), seen["via-"+n])}, n)
+					break
+				}
+			}
+		}
+		log.VerifReset()
+		p.States = p.Executions
+		p.addObs("growth")
 	}, replay: c18Replay})
 }
 
